@@ -14,10 +14,12 @@ FUNCS1 = {"sin": "sin", "cos": "cos", "tan": "tan", "sqrt": "sqrt", "acos": "aco
 class ExprReader:
     """env maps names to terms (T), python lists of terms, or opaque markers handled by `special`."""
 
-    def __init__(self, env: Optional[dict] = None, special: Optional[Callable] = None, where: str = ""):
+    def __init__(self, env: Optional[dict] = None, special: Optional[Callable] = None, where: str = "", helpers: Optional[dict] = None):
         self.env = dict(env or {})
         self.special = special
         self.where = where
+        self.helpers = helpers or {}  # module-level straight-line functions that may be inlined: name -> FunctionDef
+        self.depth = 0
 
     def fail(self, n: ast.AST, why: str):
         raise AnalysisError(f"formula reader ({self.where}): cannot read `{norm(n, 80)}` at line {getattr(n, 'lineno', '?')}: {why}")
@@ -27,13 +29,15 @@ class ExprReader:
             r = self.special(self, n)
             if r is not None:
                 return r
+        if isinstance(n, ast.Constant) and isinstance(n.value, bool):
+            return num(1 if n.value else 0)
         if isinstance(n, ast.Constant) and isinstance(n.value, (int, float)) and not isinstance(n.value, bool):
             return num(Fraction(n.value) if isinstance(n.value, int) else Fraction(str(n.value)))
         if isinstance(n, ast.Name):
             if n.id in self.env:
                 return self.env[n.id]
             if n.id == "pi":
-                self.fail(n, "pi is not in the algebra")
+                return T("pi")
             self.fail(n, "unbound name")
         if isinstance(n, ast.Attribute):
             d = dotted(n)
@@ -52,7 +56,7 @@ class ExprReader:
             l, r = self.ev(n.left), self.ev(n.right)
             if isinstance(l, list) or isinstance(r, list):
                 return self.list_op(n, l, r)
-            o = {ast.Add: "add", ast.Sub: "sub", ast.Mult: "mul", ast.Div: "div", ast.Pow: "pow"}.get(type(n.op))
+            o = {ast.Add: "add", ast.Sub: "sub", ast.Mult: "mul", ast.Div: "div", ast.Pow: "pow", ast.Mod: "mod", ast.BitAnd: "and", ast.BitOr: "or"}.get(type(n.op))
             if o is None:
                 self.fail(n, "operator")
             return op(o, l, r)
@@ -86,7 +90,36 @@ class ExprReader:
                 a, b = self.term(n.args[0]), self.term(n.args[1])
                 if a.op == "num" and b.op == "num":
                     return num(a.val / b.val)
+            if last == "Mod" and len(n.args) == 2:
+                return op("mod", self.term(n.args[0]), self.term(n.args[1]))
+            if last in ("Eq", "Ne", "Gt", "Ge", "Lt", "Le") and len(n.args) == 2:
+                return op(last.lower(), self.term(n.args[0]), self.term(n.args[1]))
+            if last in ("And", "Or") and n.args:
+                return op(last.lower(), *[self.term(a) for a in n.args])
+            if last == "Piecewise" and n.args and all(isinstance(a, ast.Tuple) and len(a.elts) == 2 for a in n.args):
+                flat = []
+                for a in n.args:
+                    flat += [self.term(a.elts[0]), self.term(a.elts[1])]
+                return op("piecewise", *flat)
+            if isinstance(n.func, ast.Name) and n.func.id in self.helpers and not n.keywords and self.depth < 4:
+                fn = self.helpers[n.func.id]
+                params = [a.arg for a in fn.args.args]
+                if len(params) == len(n.args) and not fn.args.vararg and not fn.args.kwarg:
+                    import copy
+                    sub = copy.copy(self)
+                    sub.env = dict(zip(params, [self.ev(a) for a in n.args]))
+                    sub.where = f"{self.where}>{fn.name}"
+                    sub.depth = self.depth + 1
+                    r = sub.run([x for x in fn.body if not (isinstance(x, ast.Expr) and isinstance(x.value, ast.Constant))])
+                    if r is not None:
+                        return r
             self.fail(n, "call outside the decidable class")
+        if isinstance(n, ast.Compare) and len(n.ops) == 1:
+            o = {ast.Gt: "gt", ast.GtE: "ge", ast.Lt: "lt", ast.LtE: "le"}.get(type(n.ops[0]))
+            if o:
+                return op(o, self.term(n.left), self.term(n.comparators[0]))
+        if isinstance(n, ast.BoolOp):
+            return op("and" if isinstance(n.op, ast.And) else "or", *[self.term(v) for v in n.values])
         self.fail(n, type(n).__name__)
 
     def term(self, n: ast.AST) -> T:
